@@ -1583,6 +1583,9 @@ class Interp:
             return v          # a captureless lambda converted to a function pointer
         if name.startswith("operator basic_string_view") and isinstance(v, z3.ExprRef) and z3.is_int(v):
             return v          # strings are opaque ids: std::string -> std::string_view keeps the id
+        h = self.k.auto_inline_method(obj, name, callee)
+        if h is not None:
+            return h(self, obj, args, n)
         raise Gap("unclassified method %s on %r (line %s)" % (name, obj, extract.line_of(n)))
 
     def e_CallExpr(self, n):
